@@ -27,9 +27,12 @@ RULE = ('cases: (a) entropy cases = language x entropy size 16/20/24/28/32 x pat
         'the reference deciding which keep a valid checksum; (c) generate(); (d) word-list digests/structure; (e) sequences '
         'of 7-16 operations on ONE Mnemonic object of language A: sentences of another language B are handed to to_seed / '
         'to_entropy / sanitize_mnemonic / detect_language before, between and after the own-language services (to_mnemonic, '
-        'generate, word, wordlist, to_entropy, to_seed), four orders, all ordered language pairs reachable; '
+        'generate, word, wordlist, to_entropy, to_seed), four orders, all ordered language pairs reachable; (f) corrupted '
+        'sentences of language B (word substituted, two words swapped, wrong last/first word, duplicated neighbour; all words '
+        'in B\'s list, the reference decides over all nine lists whether any still validates it) handed to to_seed / to_entropy '
+        'of instances of OTHER languages and to HDKey.from_passphrase; '
         'non-trivial = distinct (kind, language, size, pattern, form, passphrase class, spelling) tuples, and for (b) '
-        'distinct (language, size, position, verdict class, word bucket) tuples, for (e) distinct (A, B, operation list)')
+        'distinct (language, size, position, verdict class, word bucket) tuples, for (e) distinct (A, B, operation list), for (f) distinct (B, corruption, verdict, instances, length)')
 TRUSTED_BASE = ['vf/refs/bip39.py (self-checked: TREZOR English vectors, Japanese NFKD vector, repo tests/mnemonics_tests.json)',
                 'vf/refs/bip32.py master key (BIP32 vectors) for HDKey.from_passphrase',
                 'golden/wordlists.sha256: digests pinned from tree 074a788 (english.txt equals the published BIP39 list digest); '
@@ -389,6 +392,92 @@ def chk_subst_position(lang, ent, pos, col, rnd, seed_every=97, step=1):
         chk_subst_one(lang, ent, pos, w, col, m=m, also_seed=True)
 
 
+# ------------------------------------------------------------------------------- corrupted sentences, other instance
+CORRUPTIONS = ('substitute', 'swap', 'last-word', 'first-word', 'duplicate-neighbour')
+
+
+def _valid_somewhere(sentence):
+    """The bundled lists under which the sentence is a valid BIP39 sentence (the seed does not depend on the language, so a
+    sentence that is valid under any list may be accepted)."""
+    return [l for l in languages() if ref.is_valid(sentence, wordlist(l))]
+
+
+def _corrupt(rnd, toks, words, how):
+    toks = list(toks)
+    n = len(toks)
+    if how == 'substitute':
+        i = rnd.randrange(n)
+        toks[i] = rnd.choice([w for w in words if w != toks[i]])
+    elif how == 'swap':
+        i, j = rnd.sample(range(n), 2)
+        toks[i], toks[j] = toks[j], toks[i]
+    elif how == 'last-word':
+        toks[-1] = rnd.choice([w for w in words if w != toks[-1]])
+    elif how == 'first-word':
+        toks[0] = rnd.choice([w for w in words if w != toks[0]])
+    else:
+        i = rnd.randrange(n - 1)
+        toks[i] = toks[i + 1]
+    return toks
+
+
+def chk_cross(case, col):
+    """A sentence of language B whose words are all in B's list (corrupted: the reference decides whether any bundled list
+    still validates it) is handed to instances of OTHER languages and to HDKey.from_passphrase (always the default
+    instance): a sentence no list validates must be refused by to_seed / to_entropy / from_passphrase everywhere; one
+    that is still valid must give its BIP39 seed where a seed is returned."""
+    from bitcoinlib.mnemonic import Mnemonic
+    from bitcoinlib.keys import HDKey
+    B, sentence, how = case['lang'], case['sentence'], case['how']
+    valid_in = _valid_somewhere(sentence)
+    verdict = 'still-valid' if valid_in else 'invalid'
+    col.case('cross/%s/%s/%s' % (B, how, verdict), nontrivial=('cross', B, how, verdict, tuple(case['through']), len(sentence.split(' '))), sample=case)
+    pw = case.get('pass', '')
+    exp_seed = ref.to_seed(sentence, pw)
+    calls = [('Mnemonic(%s).to_seed' % A, A, 'to_seed') for A in case['through']]
+    calls += [('Mnemonic(%s).to_entropy' % case['through'][0], case['through'][0], 'to_entropy'), ('HDKey.from_passphrase', None, 'hd')]
+    for label, A, op in calls:
+        col.probe('cross_' + op)
+        col.probe('cross_' + verdict)
+        try:
+            if op == 'to_seed':
+                got = bytes(Mnemonic(A).to_seed(sentence, pw))
+            elif op == 'to_entropy':
+                got = bytes(Mnemonic(A).to_entropy(sentence))
+            else:
+                k = HDKey.from_passphrase(sentence, pw)
+                got = (bytes(k.private_byte), bytes(k.chain))
+        except Exception as e:
+            if valid_in and op != 'to_entropy' and (op == 'to_seed' and A in valid_in):
+                col.violation(None, '%s refused a %s sentence that is valid under its own list: %r' % (label, B, e), case, repr(e), exp_seed)
+            continue
+        if not valid_in:
+            col.violation(None, '%s accepted a %s sentence (%s) whose checksum no bundled list validates' % (label, B, how), case,
+                          got if isinstance(got, bytes) else [g.hex() for g in got], 'refusal')
+        elif op == 'to_seed' and got != exp_seed:
+            col.violation(None, '%s: seed of a still-valid %s sentence is not its BIP39 seed' % (label, B), case, got, exp_seed)
+        elif op == 'hd':
+            xm = ref32.master(exp_seed)
+            if got != (xm.secret.to_bytes(32, 'big'), xm.chain):
+                col.violation(None, 'HDKey.from_passphrase: key of a still-valid %s sentence is not the master key of its seed' % B, case, got[0], xm.secret)
+        elif op == 'to_entropy' and not any(got == ref.to_entropy(sentence, wordlist(l)) for l in valid_in):
+            col.violation(None, '%s returned an entropy that no reading of the sentence gives' % label, case, got, None)
+
+
+def gen_cross(rnd, g, langs):
+    B = langs[g % len(langs)]
+    others = [l for l in langs if l != B]
+    through = [others[(g // len(langs)) % len(others)]]
+    if B != 'english' and 'english' not in through and g % 2:
+        through.append('english')
+    words = wordlist(B)
+    nbytes = ref.ENT_BYTES[(g // 2) % 5]
+    toks = ref.to_mnemonic(rnd.randbytes(nbytes), words).split(' ')
+    how = CORRUPTIONS[(g // 3) % len(CORRUPTIONS)]
+    return {'kind': 'cross', 'lang': B, 'how': how, 'through': through, 'sentence': ' '.join(_corrupt(rnd, toks, words, how)),
+            'pass': rnd.choice(['', 'TREZOR'])}
+
+
 # ------------------------------------------------------------------------------------------------- sequences
 FOREIGN_OPS = ('to_seed', 'to_entropy', 'sanitize', 'detect', 'to_seed_novalidate')
 OWN_OPS = ('to_mnemonic', 'word', 'wordlist', 'generate', 'to_entropy', 'to_seed')
@@ -554,6 +643,8 @@ def run_case(case, col):
         chk_wordlists(col)
     elif k == 'sequence':
         chk_sequence(case, col)
+    elif k == 'cross':
+        chk_cross(case, col)
 
 
 def replay(case, col):
@@ -570,7 +661,8 @@ def plan(tier, seed, scale=1.0):
     specs = []
     for i in range(nshard):
         specs.append({'shard': i, 'nshard': nshard, 'n_entropy': max(9, n_ent // nshard), 'n_sentences': n_sent,
-                      'extra_units': extra_units, 'n_sequences': max(3, int((150 if thorough else 6) * scale))})
+                      'extra_units': extra_units, 'n_sequences': max(3, int((150 if thorough else 6) * scale)),
+                      'n_cross': max(3, int((200 if thorough else 5) * scale))})
     return specs
 
 
@@ -603,7 +695,7 @@ def run_shard(spec, col):
     if not _selfcheck(col):
         return
     for p in ('to_mnemonic', 'to_entropy', 'to_seed', 'from_passphrase', 'subst_to_entropy', 'subst_valid', 'subst_badsum',
-              'subst_outside', 'wordlist_digest', 'seq_foreign', 'seq_own'):
+              'subst_outside', 'wordlist_digest', 'seq_foreign', 'seq_own', 'cross_to_seed', 'cross_hd', 'cross_invalid'):
         col.require(p)
     rnd = random.Random('%s-%d-%d' % (ID, spec['seed'], spec['shard']))
     sh, ns = spec['shard'], spec['nshard']
@@ -627,6 +719,9 @@ def run_shard(spec, col):
         case = {'kind': 'entropy', 'lang': lang, 'ent': ent.hex(), 'form': form, 'pass': pw, 'pcls': pcls,
                 'spelling': rnd.choice(spellings), 'pattern': pattern, 'hd': True}
         chk_entropy(case, col)
+    # -- corrupted sentences judged through instances of other languages and HDKey.from_passphrase
+    for i in range(spec.get('n_cross', 5)):
+        chk_cross(gen_cross(rnd, spec['seed'] * 7919 + i * ns + sh, langs), col)
     # -- sequences on one object across languages
     for i in range(spec.get('n_sequences', 6)):
         chk_sequence(gen_sequence(rnd, spec['seed'] * 7919 + i * ns + sh, langs), col)
